@@ -24,7 +24,9 @@ ASSUMPTIONS = [
     "64/75 F (cooling), slopes 0.3/3 per degree, base load 5/50, multiplicative noise 1 % (uniform, three explicit integer draws)",
     "the smoothed members of the family (daily models): the same grid with the generating curve smoothed - smoothing length 4 F for the "
     "one-slope shapes, 0.3 of the dead band on each side for the two-slope shape - evaluated by refmodels/curve.py",
-    "precondition (counted as rejected when not met): at least 30 baseline days beyond the balance point of every active regime",
+    "precondition (counted as rejected when not met): at least 30 baseline days beyond the balance point of every active regime; for the "
+    "family billing_monthlyT (one pre-aggregated temperature per calendar month, usage following the curve of that temperature) at least "
+    "three billing months beyond it, since a regime seen at one or two temperatures cannot be identified",
     "NRMSE = sqrt(mean((predicted - generating curve)^2)) / mean(generating curve) over the days predict() evaluates; the second weather "
     "year is the same climate with another weather seed; loads are compared as sum(load)/sum(generated usage)",
     "monthly-billed data: calendar-month sums of the same daily usage; for billing models the curve is compared per day AND per calendar "
@@ -41,14 +43,16 @@ CLIMATES = ["continental", "mild", "hot"]
 ZONES = ["UTC", "America/Chicago"]
 DRAWS = [0, 1, 2]
 NOISES = [0.01, 0.001]   # "at most 1 %": the maximum and a tenth of it
-FAMILIES = ["daily", "billing", "daily_legacy"]
+FAMILIES = ["daily", "billing", "daily_legacy", "billing_monthlyT"]
+# billing_monthlyT: monthly bills with a PRE-AGGREGATED weather feed - one temperature per calendar month (its mean), constant over the
+# days of the month - and usage that follows the curve of that temperature: 12 distinct temperatures in the whole baseline
 
 
 def grid(tier):
     out = []
     for fam, noise, shape, base, slope, hbp, cbp, climate, zone, draw in itertools.product(FAMILIES, NOISES, SHAPES, BASES, SLOPES, HBPS, CBPS,
                                                                                           CLIMATES, ZONES, DRAWS):
-        if fam == "daily_legacy" and (zone != ZONES[0] or draw != 0):
+        if fam in ("daily_legacy", "billing_monthlyT") and (zone != ZONES[0] or draw != 0):
             continue
         if noise != NOISES[0] and draw != 0:
             continue
@@ -64,8 +68,11 @@ def grid(tier):
                 continue
             h = (SHAPES.index(shape) + BASES.index(base) + SLOPES.index(slope) + HBPS.index(hbp) + CBPS.index(cbp)
                  + CLIMATES.index(climate) + ZONES.index(zone))
-            if noise == NOISES[0] and fam != "daily_legacy":
+            if noise == NOISES[0] and fam not in ("daily_legacy", "billing_monthlyT"):
                 if h % (3 if fam == "daily" else 2) != 0:
+                    continue
+            elif fam == "billing_monthlyT":
+                if noise != NOISES[0] or h % 3 != 0:
                     continue
             elif (h + FAMILIES.index(fam)) % 6 != 1:   # low noise and the legacy profile: a sixth of the points each
                 continue
@@ -116,12 +123,21 @@ def run_case(case):
     zone = case["zone"]
     idx = ds.local_days("2021-01-01", 365, zone)
     T = ds.daily_temperature(idx, case["climate"], 20 + case["draw"])
+    if case["family"] == "billing_monthlyT":
+        T = T.groupby([T.index.year, T.index.month]).transform("mean")
     Tn = T.to_numpy()
     # precondition: a month of days in every active regime
     if g["hs"] > 0 and int((Tn < g["hbp"]).sum()) < 30:
         return {"rejected": "fewer than 30 baseline days below the heating balance point"}
     if g["cs"] > 0 and int((Tn > g["cbp"]).sum()) < 30:
         return {"rejected": "fewer than 30 baseline days above the cooling balance point"}
+    if case["family"] == "billing_monthlyT":
+        # one temperature per month: a regime seen in fewer than three billing months is a line through one or two points and cannot
+        # be told from the base load (a remark on the input, not on the fit)
+        if g["hs"] > 0 and len(set(Tn[Tn < g["hbp"]].tolist())) < 3:
+            return {"rejected": "fewer than three billing months below the heating balance point (one temperature per month)"}
+        if g["cs"] > 0 and len(set(Tn[Tn > g["cbp"]].tolist())) < 3:
+            return {"rejected": "fewer than three billing months above the cooling balance point (one temperature per month)"}
     noise = case.get("noise", NOISES[0])
     if case.get("smooth"):
         rng = np.random.default_rng(4100 + case["draw"])
@@ -130,6 +146,8 @@ def run_case(case):
         y = ds.daily_usage(T, noise=noise, seed=100 + case["draw"], **g)
     idx2 = ds.local_days("2022-01-01", 365, zone)
     T2 = ds.daily_temperature(idx2, case["climate"], 40 + case["draw"])
+    if case["family"] == "billing_monthlyT":
+        T2 = T2.groupby([T2.index.year, T2.index.month]).transform("mean")
     key = {"family": case["family"], **({"noise": noise} if noise != NOISES[0] else {}),
            "gp": f"{case['shape']}{'~smooth' if case.get('smooth') else ''}|base={case['base']}|slope={case['slope']}|hbp={case['hbp']}|cbp={case['cbp']}|{case['climate']}"}
     def fresh(cls):
@@ -167,7 +185,7 @@ def run_case(case):
         truth = truth_of(p["temperature"].to_numpy(float)[ok])
         pred = p["predicted"].to_numpy(float)[ok]
         nrmse = float(np.sqrt(np.mean((pred - truth) ** 2)) / truth.mean())
-        if case["family"] == "billing":
+        if case["family"] in ("billing", "billing_monthlyT"):
             # a monthly-billed model sees monthly aggregates only: the statement does not say at which resolution the curve is
             # compared, so the better of the two readings counts - per day, or per calendar month (what a bill can resolve)
             months = p.index[ok].to_period("M")
